@@ -50,6 +50,8 @@ def find_visitors(ctx):
 
 def run(ctx, rep):
     ix, T = ctx.ix, ctx.typer
+    from .common import check_macro_argument_binding
+    check_macro_argument_binding(ctx, rep, "C04.8")
     from .common import check_fast_paths
     _fp_mods = ["jaqalpaq.core.algorithm.expand_macros"]
     check_fast_paths(ctx, rep, "C04.7", [f for f in ix.functions.values() if f.module in _fp_mods and (f.cls is None or T.is_visitor(f.cls))], None)
